@@ -46,9 +46,13 @@ def build(rng, W, i):
     """one scenario descriptor (before signing)"""
     nsign = rng.choice([0, 1, 1, 2, 2, 3])
     S = rng.sample(OWNERS, nsign)
-    layout, plan = pipeline.valid_layout(rng, W, readme=rng.choice(["", "readme", "multi\nline", 'q"\\', "C:\\nightly\\tools", "tab\there", "x\\u0041y", "a\\/b"]))
+    tolerant = i % 8 == 3
+    if tolerant and not S:
+        S = rng.sample(OWNERS, 1)
+    layout, plan = pipeline.valid_layout(rng, W, readme=rng.choice(["", "readme", "multi\nline", 'q"\\', "C:\\nightly\\tools", "tab\there", "x\\u0041y", "a\\/b"]),
+                                         nsteps=rng.choice([2, 3]) if tolerant else None, ruleset=4 if tolerant else None)
     links = pipeline.valid_links(rng, W, plan)
-    return {"S": S, "layout": layout, "plan": plan, "links": links}
+    return {"S": S, "layout": layout, "plan": plan, "links": links, "tolerant_match": tolerant}
 
 
 _weird_cache = {}
@@ -114,6 +118,11 @@ def shard(binpath, seed, sh, n):
         S = sc["S"]
         pairs, M, mapdesc, aliased = caller_map(rng, W, S)
         action = rng.choice(["none", "none", "content", "content", "sig", "sig"])
+        if sc.get("tolerant_match"):
+            # a layout whose MATCH rules are followed by a tolerant tail, edited in the optional prefix of one MATCH
+            # rule only, under the exact key map: nothing but the owner signatures stands between the edit and success
+            pairs, M, mapdesc, aliased = [[W.kid(k), W.pub(k)] for k in S], list(S), "exact", False
+            action = "content"
         if not S:
             action = rng.choice(["none", "content"])
         wire = copy.deepcopy(lw)
@@ -123,7 +132,13 @@ def shard(binpath, seed, sh, n):
         if action == "content":
             edits = list(scen.single_edits(wire["signed"], rng, None))
             special = [e for e in edits if e[0].startswith(("respell@", "match_prefix@", "respell_key@"))]
-            if edits:
+            mp = [e for e in edits if e[0].startswith("match_prefix@")]
+            if sc.get("tolerant_match") and mp:
+                content_edit, newdoc = rng.choice(mp)
+                wire["signed"] = newdoc
+                broken = set(S)
+                desc = "content:" + content_edit
+            elif edits:
                 content_edit, newdoc = rng.choice(special) if special and rng.random() < 0.35 else rng.choice(edits)
                 wire["signed"] = newdoc
                 broken = set(S)
